@@ -224,6 +224,41 @@ theorem earlier_findings_are_a_prefix (checks : List Check) (nm : NosecMap) (lin
     scanVisits checks nm lines s earlier <+: scanVisits checks nm lines s (earlier ++ later) := by
   rw [scanVisits_append]; exact List.prefix_append _ _
 
+/-- **Only the module argument of `__import__` counts.**  Two `__import__(…)` calls with the same first positional argument are judged alike, whatever
+else they pass (`globals`, `locals`, `fromlist`, `level`, any keyword): the looked-up name is the first argument's literal (seeded change C01-m15 replaced it
+by `module.item` for each `fromlist` entry). -/
+theorem dunder_import_ignores_other_arguments (e e' : Env) (c c' : CallView)
+    (hf : c.func.nameId? = some "__import__".toList) (hf' : c'.func.nameId? = some "__import__".toList)
+    (ha : c'.args.head? = c.args.head?) :
+    blacklistCallName e' c' = blacklistCallName e c := by
+  unfold blacklistCallName
+  simp only [hf, hf', if_true]
+  cases h : c.args with
+  | nil =>
+    rw [h] at ha
+    cases h' : c'.args with
+    | nil => rfl
+    | cons a t => rw [h'] at ha; simp at ha
+  | cons a t =>
+    rw [h] at ha
+    cases h' : c'.args with
+    | nil => rw [h'] at ha; simp at ha
+    | cons a' t' =>
+      rw [h'] at ha
+      simp only [List.head?_cons, Option.some.injEq] at ha
+      subst ha; rfl
+
+/-- … so the rule reported for `__import__(m, <anything>)` is the rule of `__import__(m)` -/
+theorem dunder_import_rule_ignores_other_arguments (t : BlTables) (e e' : Env) (c c' : CallView)
+    (hk : e.node.isKind "Call" = true) (hk' : e'.node.isKind "Call" = true) (hkind : e'.node.kind = e.node.kind)
+    (hc : e.node.asCall? = some c) (hc' : e'.node.asCall? = some c')
+    (hf : c.func.nameId? = some "__import__".toList) (hf' : c'.func.nameId? = some "__import__".toList)
+    (ha : c'.args.head? = c.args.head?) :
+    blacklistRun t e' = blacklistRun t e := by
+  have hn := dunder_import_ignores_other_arguments e e' c c' hf hf' ha
+  unfold blacklistRun
+  simp only [hk, hk', if_true, hc, hc', hn, hkind]
+
 /-- every generated rule has at least one qualified name and every import rule is also in the Call
 table (so `__import__("m")` / `importlib.import_module("m")` are judged by the import rules) -/
 theorem gen_tables_wellformed :
